@@ -55,7 +55,7 @@ K = 4
 def plan(tier, seed):
     return [{'part': i, 'parts': NSHARDS, 'n_triples': N_TRIPLES[tier] // NSHARDS, 'n_cross': N_CROSS[tier] // NSHARDS,
              'n_engval': N_ENGVAL[tier] // NSHARDS, 'n_unknown': N_UNKNOWN[tier] // NSHARDS,
-             'all_triples': tier == 'thorough', 'extra_values': 12 if tier == 'thorough' else 0} for i in range(NSHARDS)]
+             'all_triples': tier == 'thorough', 'extra_values': 36 if tier == 'thorough' else 0} for i in range(NSHARDS)]
 
 
 # ---------------------------------------------------------------------------------------------- known finding F12
@@ -638,6 +638,9 @@ class Lis:
                 Mc = P.magnitude(B, ec)
                 margin = K * EPS * Mc
             w = {'op': op, 'a': [A, repr(ua.code)], 'b': [B, repr(ub.code)], 'b_in_units_of_a_exact': float(ec)}
+            if op == '/' and (ec == 0 or abs(float(ec)) <= 1e-6 * Mc):
+                rec.add('engval_divisions_skipped_small_denominator')     # float division by (nearly) zero is not a units matter
+                continue
             try:
                 res = apply(op, a, b)
             except Exception as e:  # noqa
@@ -666,9 +669,6 @@ class Lis:
                 if op in ('+=', '-=') and res is not a:
                     self.rep('engval_arithmetic', op + '-identity', 'in-place %s returned a different object' % op, w)
             elif op == '/':
-                if ec == 0 or abs(float(ec)) <= 1e-6 * Mc:
-                    rec.add('engval_divisions_skipped_small_denominator')
-                    continue
                 exact = Fr(A) / ec
                 bound = abs(float(exact)) * (margin / abs(float(ec)) * 1.001 + 2 * EPS)
                 got_v, got_u, want_u = res.value, res.uom, None
